@@ -124,6 +124,26 @@ func GetFixture(t *testing.T, n, thr int, seedTag string) (*Fixture, error) {
 			return
 		}
 		defer w.Close()
+		// An earlier, unrelated round on the same nodes and machines: the participants in reverse order (so everybody's
+		// participant id differs between the rounds) and, where n allows, another threshold. Signing-phase cases thus run
+		// on nodes and machines that hold material of two rounds.
+		rev := make([]int, n)
+		for i := range rev {
+			rev[i] = n - 1 - i
+		}
+		thrA := n
+		if thrA == thr {
+			thrA = 2
+		}
+		if _, err := w.StartDKG(0, thrA, rev); err != nil {
+			ferr = fmt.Errorf("fixture (%d,%d): earlier round: %w", n, thr, err)
+			return
+		}
+		if err := w.Quiesce(60); err != nil {
+			ferr = fmt.Errorf("fixture (%d,%d): earlier round: %w", n, thr, err)
+			return
+		}
+		time.Sleep(time.Hour)
 		round, err := w.StartDKG(n-1, thr, nil)
 		if err != nil {
 			ferr = err
